@@ -580,20 +580,14 @@ fn check_actor(ctx: &mut Ctx, c: &Case, o: &mut Outcome) -> R<()> {
 // ------------------------------------------------------------------------------------------------
 // the client API of a real engine
 
-struct ApiFixture {
-    endpoint: iroh::Endpoint,
-    gossip: iroh_gossip::net::Gossip,
-    blobs: iroh_blobs::api::Store,
+pub struct ApiFixture {
+    pub endpoint: iroh::Endpoint,
+    pub gossip: iroh_gossip::net::Gossip,
+    pub blobs: iroh_blobs::api::Store,
 }
 
-async fn within<T>(what: &str, f: impl std::future::Future<Output = T>) -> R<T> {
-    tokio::time::timeout(std::time::Duration::from_secs(30), f).await.map_err(|_| format!("harness-timeout: {what} did not return within 30 s"))
-}
-
-fn check_api(ctx: &mut Ctx, file: bool, steps: &[ApiStep], o: &mut Outcome) -> R<()> {
-    use futures_util::StreamExt;
-    use iroh_docs::{api::Doc, protocol::Docs, Capability, CapabilityKind};
-    o.class(if file { "client-api/file" } else { "client-api/memory" });
+/// The endpoint, gossip and blob store shared by the client-API families of a worker (built once).
+pub fn api_fixture(ctx: &mut Ctx) -> R<(iroh::Endpoint, iroh_gossip::net::Gossip, iroh_blobs::api::Store)> {
     if !ctx.fixtures.contains_key("c07api") {
         let f: R<ApiFixture> = ctx.rt.block_on(async {
             use iroh::{endpoint::presets, Endpoint};
@@ -604,9 +598,20 @@ fn check_api(ctx: &mut Ctx, file: bool, steps: &[ApiStep], o: &mut Outcome) -> R
         });
         ctx.fixtures.insert("c07api", Box::new(f?));
     }
-    let dir = if file { Some(ctx.fresh_path("c07api-dir")) } else { None };
     let fx = ctx.fixtures.get("c07api").and_then(|f| f.downcast_ref::<ApiFixture>()).ok_or("fixture")?;
-    let (endpoint, gossip, blobs) = (fx.endpoint.clone(), fx.gossip.clone(), fx.blobs.clone());
+    Ok((fx.endpoint.clone(), fx.gossip.clone(), fx.blobs.clone()))
+}
+
+pub async fn within<T>(what: &str, f: impl std::future::Future<Output = T>) -> R<T> {
+    tokio::time::timeout(std::time::Duration::from_secs(30), f).await.map_err(|_| format!("harness-timeout: {what} did not return within 30 s"))
+}
+
+fn check_api(ctx: &mut Ctx, file: bool, steps: &[ApiStep], o: &mut Outcome) -> R<()> {
+    use futures_util::StreamExt;
+    use iroh_docs::{api::Doc, protocol::Docs, Capability, CapabilityKind};
+    o.class(if file { "client-api/file" } else { "client-api/memory" });
+    let (endpoint, gossip, blobs) = api_fixture(ctx)?;
+    let dir = if file { Some(ctx.fresh_path("c07api-dir")) } else { None };
     let mut t = T0 + 5000;
     let res: R<()> = ctx.rt.block_on(async {
         let spawn = || async {
